@@ -224,7 +224,9 @@ def jobs_for(prop, tier):
 def _jobs_for(prop, tier):
     thorough = tier == "thorough"
     if prop == "C01":
-        return c01_space(tier)
+        # plus the self-test of the snapshot hook and the hashers (a failure is a
+        # machinery error, exit 2, never a verdict)
+        return c01_space(tier) + [{"id": "selftest", "argv": ["selftest", "5" if thorough else "4"]}]
     if prop == "C03":
         # no-pressure configurations for the lower bound, small capacities for M-room;
         # deeper than C01 because drift shows on the refill after expiry/invalidation
